@@ -148,6 +148,8 @@ impl WireRig {
         }
         let config: Config = builder.build();
 
+        // the permit/ban list is a process-wide static: start every rig from an empty one
+        discv5::verif::ban_list_set(discv5::PermitBanList::default());
         let wire = push_virtual_wire();
         let (exit, to_handler, mut from_handler) = Handler::spawn(
             Arc::new(RwLock::new(enr)),
